@@ -127,17 +127,18 @@ extern "C" void harness_tokens3()  /* vf: tier=thorough bounds=15_grammar_entry_
     vf_reach("end");
 }
 // a valid prefix followed by two arbitrary tokens: reaches the error productions deep inside statements, calls, quantifiers, struct and array declarators
-extern "C" void harness_prefixed_tokens()  /* vf: tier=quick bounds=22_valid_prefixes(function_bodies,nested_blocks,quantifiers,calls,array/struct_declarators,queries)_followed_by_1_arbitrary_token(quick)_of_the_entry's_alphabet;new_and_old_syntax;3_back_ends reach=end */
+extern "C" void harness_prefixed_tokens()  /* vf: tier=quick bounds=26_valid_prefixes(function_bodies,nested_blocks,quantifiers,calls,array/struct_declarators,queries,strategy_declarations_and_uses)_followed_by_1_arbitrary_token(quick)_of_the_entry's_alphabet;new_and_old_syntax;3_back_ends reach=end */
 {
     struct Pre { int entry; const char* text; };
     static const Pre PRE[] = {
         {8, "int f2(int p) { int q = p; if (q > 1) {"}, {8, "int f2(int p) { for (k : int[0,1]) {"}, {8, "int f2() { return fn(1,"}, {8, "int a2[int[0,1]][int[0,1]]["}, {8, "struct { int a; int"}, {8, "typedef struct { int a; }"},
         {8, "int q[3] = { 1,"}, {8, "bool e = exists (p : Worker)(true);"}, {8, "int s = sum (k : int[0,1])"}, {8, "void g2() { while (i < 3) { i++; } do {"},
         {0, "fn(i, arr["}, {0, "forall (k : int[0,2]) arr[k] > 0 &&"}, {0, "b ? i :"}, {0, "r.f + r."}, {1, "i < 3 && (x >"}, {3, "i = 1, arr[0] ="}, {4, "ca[i"},
-        {11, "k : int[0,2], j :"}, {12, "P1 = TT(1); system P1 <"}, {14, "Pr[<=10] (<> b) >="}, {14, "simulate [<=10] {i,"}, {14, "E<> forall (k : int[0,2]) arr[k] >"}};
+        {11, "k : int[0,2], j :"}, {12, "P1 = TT(1); system P1 <"}, {14, "Pr[<=10] (<> b) >="}, {14, "simulate [<=10] {i,"}, {14, "E<> forall (k : int[0,2]) arr[k] >"},
+        {14, "strategy S1 = control: A<>"}, {14, "strategy S1 = minE(i)[<=10] : <>"}, {14, "saveStrategy(\"f\","}, {14, "E<> b under"}};
     int old = vf_pick("!old_syntax", 2);
     Fixture fx(old); PropFixture pf;
-    int p = vf_pick("!prefix", 22), backend = vf_pick("!backend", 2);
+    int p = vf_pick("!prefix", 26), backend = vf_pick("!backend", 2);
     const Entry& en = ENTRIES[PRE[p].entry];
     vf_assume(!old || (en.part != S_PROPERTY && en.part != S_SELECT && en.part != S_SYNC));
     vf_assume(backend == 0 || en.part == S_PROPERTY);
@@ -146,17 +147,18 @@ extern "C" void harness_prefixed_tokens()  /* vf: tier=quick bounds=22_valid_pre
     if (en.part == S_PROPERTY) run_property_backend(pf, text, backend); else run_document_backend(fx, en, text);
     vf_reach("end");
 }
-extern "C" void harness_prefixed_tokens2()  /* vf: tier=thorough bounds=22_valid_prefixes_followed_by_2_arbitrary_tokens;new_and_old_syntax;3_back_ends time_limit=3300 reach=end */
+extern "C" void harness_prefixed_tokens2()  /* vf: tier=thorough bounds=26_valid_prefixes_followed_by_2_arbitrary_tokens;new_and_old_syntax;3_back_ends time_limit=3300 reach=end */
 {
     struct Pre { int entry; const char* text; };
     static const Pre PRE[] = {
         {8, "int f2(int p) { int q = p; if (q > 1) {"}, {8, "int f2(int p) { for (k : int[0,1]) {"}, {8, "int f2() { return fn(1,"}, {8, "int a2[int[0,1]][int[0,1]]["}, {8, "struct { int a; int"}, {8, "typedef struct { int a; }"},
         {8, "int q[3] = { 1,"}, {8, "bool e = exists (p : Worker)(true);"}, {8, "int s = sum (k : int[0,1])"}, {8, "void g2() { while (i < 3) { i++; } do {"},
         {0, "fn(i, arr["}, {0, "forall (k : int[0,2]) arr[k] > 0 &&"}, {0, "b ? i :"}, {0, "r.f + r."}, {1, "i < 3 && (x >"}, {3, "i = 1, arr[0] ="}, {4, "ca[i"},
-        {11, "k : int[0,2], j :"}, {12, "P1 = TT(1); system P1 <"}, {14, "Pr[<=10] (<> b) >="}, {14, "simulate [<=10] {i,"}, {14, "E<> forall (k : int[0,2]) arr[k] >"}};
+        {11, "k : int[0,2], j :"}, {12, "P1 = TT(1); system P1 <"}, {14, "Pr[<=10] (<> b) >="}, {14, "simulate [<=10] {i,"}, {14, "E<> forall (k : int[0,2]) arr[k] >"},
+        {14, "strategy S1 = control: A<>"}, {14, "strategy S1 = minE(i)[<=10] : <>"}, {14, "saveStrategy(\"f\","}, {14, "E<> b under"}};
     int old = vf_pick("!old_syntax", 2);
     Fixture fx(old); PropFixture pf;
-    int p = vf_pick("!prefix", 22), backend = vf_pick("!backend", 2);
+    int p = vf_pick("!prefix", 26), backend = vf_pick("!backend", 2);
     const Entry& en = ENTRIES[PRE[p].entry];
     vf_assume(!old || (en.part != S_PROPERTY && en.part != S_SELECT && en.part != S_SYNC));
     vf_assume(backend == 0 || en.part == S_PROPERTY);
